@@ -94,11 +94,13 @@ structure DState where
   /-- plain bitvectors beyond 2^32 bits, described as (length, fill bit, sorted flipped positions); evaluated in closed
   form only (see Driver/Bv.lean `evalHuge`) -/
   huges : Std.HashMap String (Nat × Bool × List Nat) := {}
+  /-- raw vectors beyond 2^32 bits as run-length segments (count, bit), oldest first; closed-form evaluation only -/
+  hraws : Std.HashMap String (List (Nat × Bool)) := {}
   regimes : Std.HashMap String Nat := {}
   deriving Inhabited
 
 def DState.reset (st : DState) : DState :=
-  { st with raws := {}, ivs := {}, bvs := {}, sps := {}, rls := {}, wms := {}, huges := {} }
+  { st with raws := {}, ivs := {}, bvs := {}, sps := {}, rls := {}, wms := {}, huges := {}, hraws := {} }
 
 def DState.note (st : DState) (r : String) : DState :=
   { st with regimes := st.regimes.insert r (st.regimes.getD r 0 + 1) }
